@@ -266,6 +266,9 @@ var FileNames = []string{
 	"a-very-long-file-name-that-goes-on-and-on-and-on-for-more-than-seventy-characters-in-total.txt",
 	"длинное-имя-файла-которое-превышает-семьдесят-пять-символов-в-кодировке.txt",
 	"percent%20.txt", "comma,name.txt", "paren(1).txt", "dot.", ".hidden", "UPPER.TXT", "x.html", "y.jpeg", "z.csv",
+	// names whose bytes are not valid UTF-8 (a name in the caller's own charset, a truncated sequence): the library
+	// does not transcode, the octets are the name
+	"Gr\xfc\xdfe.png", "caf\xe9 men\xfc.txt", "\xff\xfe.bin", "trunc\xe6\x97.pdf",
 }
 
 // SanitizeName is the documented replacement of control and path characters by '_'.
